@@ -245,4 +245,14 @@ example : histOK Fixes.all { fmt := .AP, kw := true, layout := .row } (exPol (fu
     [(.batch (ctxs 2) [[.int 0, .int 1], [.int 0, .int 1]], .list .tmp [.int 1, .int 2]),
      (.batch (ctxs 2) [[.int 0, .int 1], [.int 0, .int 1]], .list .tmp [.int 1, .int 2])] = true := by decide
 
+
+/-- **wrappers_frame.**  `SafeLearner(SafeLearner(learner), seed)` is a wrapper of its own (`rewrap`: own generator from its
+own seed, empty call-style memo, nothing detected).  In ANY interleaving of calls on the two wrappers of one learner, what
+each wrapper returns is exactly what it returns on its own calls alone from its own state: draws are a function of the
+wrapper's own seed and own call history, format understanding is independent of the other wrapper. -/
+theorem wrappers_frame (fx : Fixes) (L : Learner) (inner : State) (seed : Int) (h : List (Bool × Arg)) (w : Bool) :
+    ((runTwo fx L inner (rewrap inner seed) h).filter (fun x => x.1 == w)).map (·.2) =
+      runOne fx L (if w then initState seed else inner) ((h.filter (fun x => x.1 == w)).map (·.2)) :=
+  wrappers_frame' fx L h inner (rewrap inner seed) w
+
 end Coba.C15
